@@ -30,8 +30,9 @@ type vSrvScanner struct {
 	reg      int
 	reversed bool
 	stop     []byte
-	next     int // index of the next row to deliver (forward: ascending; reversed: descending), -1/len = none
-	cellOff  int // cells of rows[next] already delivered as a partial fragment
+	next     int  // index of the next row to deliver (forward: ascending; reversed: descending), -1/len = none
+	cellOff  int  // cells of rows[next] already delivered as a partial fragment
+	get      bool // start row == stop row (non-empty): a get of that row
 }
 
 type vHBase struct {
@@ -95,6 +96,9 @@ func (h *vHBase) deliverable(s *vSrvScanner, i int) bool {
 	if h.regionOf(k) != s.reg {
 		return false
 	}
+	if s.get {
+		return bytes.Equal(k, s.stop) // HBase serves a scan whose start row equals its stop row as a get of that row
+	}
 	if s.reversed {
 		return len(s.stop) == 0 || bytes.Compare(k, s.stop) > 0
 	}
@@ -140,6 +144,7 @@ func (h *vHBase) SendRPC(rpc hrpc.Call) (proto.Message, error) {
 		h.nextID++
 		h.opened++
 		s = &vSrvScanner{id: h.nextID, reg: ri, reversed: req.Scan.GetReversed(), stop: req.Scan.StopRow}
+		s.get = len(start) > 0 && bytes.Equal(start, req.Scan.StopRow)
 		if s.reversed {
 			s.next = -1
 			for i := len(h.rows) - 1; i >= 0; i-- {
@@ -437,6 +442,11 @@ func VerifScanEndings() {
 		case err == io.EOF:
 			eof = true
 			verifAssert(r == nil, "end of scan carries no row")
+			if errs == 0 && !(ending == 0 && i >= at) {
+				// a scan that ends without having reported anything (and that its user did not
+				// close) has handed over everything it received: nothing is dropped silently
+				verifAssert(cellsIn == h.cellsOut, "a scan that reports a clean end has delivered every row it received")
+			}
 		case err != nil:
 			errs++
 			verifAssert(errs == 1, "an error or a cancellation is reported once, end-of-scan from then on")
